@@ -8,10 +8,13 @@ unit('string_set', functions=SETF, stubs=LEAF_STUBS + ['stp_validate_utf8', 'stp
 job('string_set', 'str.set_copy', 'h_str_set_copy', ['C18', 'C02'], solver='cadical', timeout=900, expect=[r'ST_string_set\.postcondition\.([1-9]|1[01])'])
 job('string_set', 'str.set_move', 'h_str_set_move', ['C18', 'C02'], solver='cadical', timeout=900, expect=[r'ST_string_set\.postcondition\.([1-9]|1[01])'])
 for _m, _mn in enumerate(['assume_valid', 'substitute_invalid', 'check_validity']):
-    job('string_set', 'str.set_utf8.' + _mn, 'h_str_set_utf8', ['C18'], solver='cadical', timeout=1200, defines=['SET_MODE=%d' % _m], expect=[r'ST_string_set_utf8\.postcondition\.[4-7]'] + ([r'ST_string_set_utf8\.postcondition\.[1-3]'] if _m == 2 else []))
+    job('string_set', 'str.set_utf8.' + _mn, 'h_str_set_utf8', ['C18', 'C04'], solver='cadical', timeout=1200, defines=['SET_MODE=%d' % _m], expect=[r'ST_string_set_utf8\.postcondition\.[4-7]'] + ([r'ST_string_set_utf8\.postcondition\.[1-3]'] if _m == 2 else []))
 job('string_set', 'str.add_c32', 'h_str_add_c32', ['C18', 'C04'], solver='cadical', timeout=900, expect=[r'ST_op_add_c32\.postcondition\.[1-6]'])
 job('string_set', 'str.addeq_c32', 'h_str_addeq_c32', ['C18'], solver='cadical', timeout=900, expect=[r'ST_string_op_addeq_c32\.postcondition\.[1-4]'])
 job('string_set', 'str.addeq_string', 'h_str_addeq_string', ['C18', 'C04'], solver='cadical', timeout=900, expect=[r'ST_string_op_addeq_string\.postcondition\.[1-4]'])
+for _k, _kn in enumerate(['add_c32', 'add_string', 'addeq_c32', 'addeq_string', 'set_copy']):
+    job('string_set', 'str.fault.' + _kn, 'h_str_fault', ['C19'], solver='cadical', timeout=900, defines=['FAULT_OP=%d' % _k], expect=[r'ST_string_fault\.postcondition\.[1-6]'])
+job('string_set', 'str.set_utf8.self', 'h_str_set_utf8_self', ['C04'], solver='cadical', timeout=900, expect=[r'ST_string_set_utf8_self\.postcondition\.[1-4]'])
 PROPS['C18'] = dict(level='proof',
     explanation='validate-then-commit is proved, not assumed, for the operations between the public API and the proved leaves: string::set(const char_buffer&, v), set(char_buffer&&, v), _set_utf8 (behind the const char* constructor / set / operator=), operator+=(char32_t), operator+=(const string&), operator+(string, char32_t), operator+(char32_t, string): whenever one of them raises unicode_error the target keeps its size, data pointer and an arbitrary byte, the argument (also when passed as an rvalue) keeps its value, the heap-block count is unchanged (temporaries released on the unwinding path, which the translator inserts), and the exception is raised exactly when the validator / encoder reports failure; on success the committed bytes are exactly the validated ones.  string_stream insertion of wchar_t / char16_t / char32_t text (C16 unit): a failed conversion leaves the stream unchanged',
     trusted_base=['validate_utf8 contract stub (harness/utf_stubs.h; the function itself is proved in the UTF unit, C02)', 'cleanup_utf8_buffer contract stub (returns a fresh well-formed buffer)', 'char_traits copy/move contracts (prelude.h)'],
